@@ -645,7 +645,7 @@ func (w *World) Direct(method, path string, hdr map[string]string, body []byte) 
 	if pan != nil {
 		return Exchange{Err: fmt.Errorf("handler panic: %v", pan), Kind: "panic"}
 	}
-	return exchangeFromHTTP(rec.Code, rec.Header(), rec.Body.Bytes())
+	return exchangeFromHTTP(rec.Code, rec.Result().Header, rec.Body.Bytes())
 }
 
 func exchangeFromHTTP(status int, h http.Header, body []byte) Exchange {
